@@ -109,3 +109,62 @@ theorem trim_key_of_normal (as : List Arg) (h : ∀ a ∈ as, a.1 ≠ [] ∧ tri
   rw [this]; exact hne
 
 end Slicec.PluginSpec
+
+namespace Slicec.PluginSpec
+
+/-! ## a comma appended behind a text that does not end in a backslash is read as a separator -/
+
+theorem endsBs_nil : endsBs [] = false := by simp [endsBs]
+
+theorem tokenize_snoc_comma_aux (n : Nat) : ∀ s : List Char, s.length ≤ n → endsBs s = false →
+    tokenize (s ++ [',']) = tokenize s ++ [.comma] := by
+  induction n with
+  | zero =>
+    intro s hl _
+    have : s = [] := List.length_eq_zero_iff.1 (by omega)
+    subst this
+    simp [tokenize_cons, tokenize]
+  | succ n ih =>
+    intro s hl hb
+    match s, hl, hb with
+    | [], _, _ => simp [tokenize_cons, tokenize]
+    | [c], _, hb =>
+      have hc : c ≠ '\\' := by simpa [endsBs_single] using hb
+      have e : tokenize [','] = [.comma] := by simp [tokenize_cons, tokenize]
+      show tokenize (c :: [',']) = tokenize [c] ++ [.comma]
+      rw [tokenize_cons c [','], tokenize_cons c [], e]
+      simp only [hc, if_false, tokenize]
+      by_cases h1 : c = ','
+      · simp [h1]
+      · by_cases h2 : c = '='
+        · simp [h2]
+        · simp [h1, h2]
+    | c :: d :: rest, hl, hb =>
+      have hb' : endsBs (d :: rest) = false := by rwa [endsBs_cons_cons] at hb
+      have ihd := ih (d :: rest) (by simp at hl ⊢; omega) hb'
+      have hrest : endsBs rest = false := by
+        cases rest with
+        | nil => exact endsBs_nil
+        | cons r rs => rwa [endsBs_cons_cons] at hb'
+      have ihr := ih rest (by simp at hl ⊢; omega) hrest
+      show tokenize (c :: (d :: rest ++ [','])) = tokenize (c :: d :: rest) ++ [.comma]
+      rw [tokenize_cons c (d :: rest ++ [',']), tokenize_cons c (d :: rest)]
+      simp only [List.cons_append] at ihd ⊢
+      by_cases hc : c = '\\'
+      · simp only [hc, if_true]
+        by_cases hd : d = ',' ∨ d = '='
+        · simp only [hd, if_true, ihr, List.cons_append]
+        · simp only [hd, if_false, ihd, List.cons_append]
+      · simp only [hc, if_false]
+        by_cases h1 : c = ','
+        · simp only [h1, if_true, ihd, List.cons_append]
+        · simp only [h1, if_false]
+          by_cases h2 : c = '='
+          · simp only [h2, if_true, ihd, List.cons_append]
+          · simp only [h2, if_false, ihd, List.cons_append]
+
+theorem tokenize_snoc_comma (s : List Char) (h : endsBs s = false) :
+    tokenize (s ++ [',']) = tokenize s ++ [.comma] :=
+  tokenize_snoc_comma_aux s.length s (Nat.le_refl _) h
+
+end Slicec.PluginSpec
